@@ -17,7 +17,12 @@ import (
 
 // ---------------------------------------------------------------- representative final states
 
-var allSlots = kslab.Slots(kslab.AllKinds, []string{kslab.Alpha, kslab.Bravo})
+// Twin is a third identity that differs from alpha only by a trailing space (a legal client id
+// character): a key file moved between look-alike identities must fail to load as well.
+const Twin = kslab.Alpha + " "
+
+var allSlots = append(kslab.Slots(kslab.AllKinds, []string{kslab.Alpha, kslab.Bravo}),
+	kslab.Slot{Kind: kslab.StoragePair, Client: Twin}, kslab.Slot{Kind: kslab.StorageSym, Client: Twin}, kslab.Slot{Kind: kslab.SearchHMAC, Client: Twin})
 
 func genAll(times int) (h []kslab.Op) {
 	for i := 0; i < times; i++ {
@@ -83,7 +88,7 @@ func classifyV1(rel string) (sl kslab.Slot, part string, hist, ok bool) {
 	case filesystem.SecureLogKeyFilename:
 		return kslab.Slot{Kind: kslab.AuditLog}, part, hist, true
 	}
-	for _, c := range []string{kslab.Alpha, kslab.Bravo} {
+	for _, c := range []string{kslab.Alpha, kslab.Bravo, Twin} {
 		switch name {
 		case c + "_storage":
 			return kslab.Slot{Kind: kslab.StoragePair, Client: c}, part, hist, true
